@@ -131,10 +131,16 @@ def run(ctx) -> None:
     eq_tests = [t for t in walk_own(set_loop) if isinstance(t, ast.If) and isinstance(t.test, ast.Compare) and is_const(t.test.left, "=") and isinstance(t.test.ops[0], ast.NotIn)]
     rep.check("C16.R3", bool(eq_tests) and any(isinstance(b, ast.Raise) and "ClickException" in ast.unparse(b) for b in eq_tests[0].body), F, eq_tests[0] if eq_tests else set_loop, "an override without '=' fails with a ClickException", "an override without '=' is not rejected")
     resplit = [c for c in walk_own(set_loop) if isinstance(c, ast.Call) and call_name(c) == "split" and dotted(c.func.value) == "re"]
-    if not resplit:
+    # ... or through a pattern compiled once at module level: `_SEP = re.compile(...)` / `_SEP.split(key)`
+    compiled = [(c, F.module.assigns[c.func.value.id]) for c in walk_own(set_loop) if isinstance(c, ast.Call) and call_name(c) == "split" and isinstance(c.func.value, ast.Name) and c.func.value.id in F.module.assigns and isinstance(F.module.assigns[c.func.value.id], ast.Call) and dotted(F.module.assigns[c.func.value.id].func) == "re.compile" and F.module.assigns[c.func.value.id].args]
+    if not resplit and not compiled:
         rep.violate("C16.R3", F, set_loop, "the key is not split with the escaped-dot regex")
     else:
-        pat = resplit[0].args[0]
+        if not resplit:
+            resplit = [compiled[0][0]]
+            pat = compiled[0][1].args[0]
+        else:
+            pat = resplit[0].args[0]
         ok = isinstance(pat, ast.Constant) and isinstance(pat.value, str) and regex_is_unescaped_dot(pat.value)
         rep.check("C16.R3", ok, F, resplit[0], "the key is split at every '.' that is not preceded by a backslash (regex AST: negative look-behind for '\\\\' + literal '.')", f"the key separator regex `{ast.unparse(pat)}` is not 'a dot not preceded by a backslash'")
     # every part (including the last) is unescaped
@@ -158,6 +164,66 @@ def run(ctx) -> None:
                         return True
             return False
 
+        split_calls = {id(c) for c in resplit} | {id(c) for c, _v in compiled}
+
+        def is_split_parts(expr, nid, depth: int = 0) -> bool:
+            """`expr` is the list of raw key parts: the result of the escaped-dot split (or a
+            slice / copy of it)."""
+            if depth > 6 or expr is None:
+                return False
+            if isinstance(expr, ast.Call) and id(expr) in split_calls:
+                return True
+            if isinstance(expr, ast.Call) and call_name(expr) in ("list", "tuple") and len(expr.args) == 1:
+                return is_split_parts(expr.args[0], nid, depth + 1)
+            if isinstance(expr, ast.Subscript) and isinstance(expr.slice, ast.Slice):
+                return is_split_parts(expr.value, nid, depth + 1)
+            if isinstance(expr, ast.Name):
+                defs = rd.at(nid, expr.id)
+                for d in defs:
+                    info = rd.def_info(d, expr.id)
+                    if not (info and info[0] in ("value", "elem") and isinstance(info[1], ast.AST) and is_split_parts(info[1], d, depth + 1)):
+                        return False
+                    # `elem` is only a list of parts for the starred target, which we cannot tell
+                    # apart here; a plain element is a single part and is handled by the caller
+                return bool(defs)
+            return False
+
+        def is_split_elem(expr, nid) -> bool:
+            """`expr` is one raw key part."""
+            if isinstance(expr, ast.Subscript) and not isinstance(expr.slice, ast.Slice):
+                return is_split_parts(expr.value, nid)
+            if isinstance(expr, ast.Name):
+                defs = rd.at(nid, expr.id)
+                for d in defs:
+                    info = rd.def_info(d, expr.id)
+                    if not (info and isinstance(info[1], ast.AST)):
+                        return False
+                    src_ = info[1]
+                    if info[0] == "iter" and isinstance(src_, ast.Call) and call_name(src_) == "enumerate" and src_.args:
+                        src_ = src_.args[0]
+                    if info[0] in ("elem", "iter"):
+                        if not is_split_parts(src_, d):
+                            return False
+                    elif info[0] == "value":
+                        if not is_split_elem(src_, d):
+                            return False
+                    else:
+                        return False
+                return bool(defs)
+            return False
+
+        def comp_unescapes_split(v, nid) -> bool:
+            """[part.replace(r"\\.", ".") for part in <split parts>]"""
+            if not (isinstance(v, ast.ListComp) and len(v.generators) == 1 and not v.generators[0].ifs):
+                return False
+            g_ = v.generators[0]
+            e_ = v.elt
+            if not (isinstance(e_, ast.Call) and call_name(e_) == "replace" and len(e_.args) == 2 and is_const(e_.args[0], "\\.") and is_const(e_.args[1], ".")):
+                return False
+            if not (isinstance(g_.target, ast.Name) and isinstance(e_.func, ast.Attribute) and isinstance(e_.func.value, ast.Name) and e_.func.value.id == g_.target.id):
+                return False
+            return is_split_parts(g_.iter, nid)
+
         def covers_all_parts(expr, nid) -> bool:
             """The list the key is taken from is built by unescaping EVERY split part."""
             if isinstance(expr, ast.Subscript) and isinstance(expr.value, ast.Name):
@@ -167,17 +233,55 @@ def run(ctx) -> None:
                 for d in defs:
                     info = rd.def_info(d, lst)
                     v = info[1] if info else None
-                    if isinstance(v, ast.ListComp) and isinstance(v.elt, ast.Call) and call_name(v.elt) == "replace" and is_const(v.elt.args[0], "\\.") and is_const(v.elt.args[1], ".") and not v.generators[0].ifs:
+                    if comp_unescapes_split(v, d):
                         good += 1
                 return bool(defs) and good == len(defs)
-            if isinstance(expr, ast.Call) and call_name(expr) == "replace":
-                return is_const(expr.args[0], "\\.") and is_const(expr.args[1], ".")
+            if isinstance(expr, ast.Call) and call_name(expr) == "replace" and isinstance(expr.func, ast.Attribute):
+                # the unescaping must be applied to a part of the escaped-dot split
+                return len(expr.args) == 2 and is_const(expr.args[0], "\\.") and is_const(expr.args[1], ".") and is_split_elem(expr.func.value, nid)
             if isinstance(expr, ast.Name):
                 for d in rd.at(nid, expr.id):
                     info = rd.def_info(d, expr.id)
-                    if not (info and isinstance(info[1], ast.AST) and covers_all_parts(info[1], d)):
+                    if not (info and isinstance(info[1], ast.AST)):
+                        return False
+                    if info[0] in ("elem", "iter"):
+                        # an element of a sequence (`*parents, last = path`, `for k in parents`)
+                        src_ = info[1]
+                        if isinstance(src_, ast.Call) and call_name(src_) == "enumerate" and src_.args:
+                            src_ = src_.args[0]
+                        if not all_elems_unescaped(src_, d):
+                            return False
+                    elif not covers_all_parts(info[1], d):
                         return False
                 return bool(rd.at(nid, expr.id))
+            return False
+
+        def all_elems_unescaped(expr, nid, depth: int = 0) -> bool:
+            """Every element of the sequence `expr` is an unescaped key part."""
+            if depth > 6:
+                return False
+            if isinstance(expr, ast.ListComp):
+                return comp_unescapes_split(expr, nid)
+            if isinstance(expr, ast.Call) and call_name(expr) == "enumerate" and expr.args:
+                return False  # elements are pairs; handled by the caller through the loop target position
+            if isinstance(expr, ast.Subscript) and isinstance(expr.slice, ast.Slice):
+                return all_elems_unescaped(expr.value, nid, depth + 1)
+            if isinstance(expr, ast.Name):
+                defs = rd.at(nid, expr.id)
+                for d in defs:
+                    info = rd.def_info(d, expr.id)
+                    if not (info and isinstance(info[1], ast.AST)):
+                        return False
+                    if info[0] == "value":
+                        if not all_elems_unescaped(info[1], d, depth + 1):
+                            return False
+                    elif info[0] == "elem":
+                        # a starred part of an unpacked sequence is a sub-sequence of it
+                        if not all_elems_unescaped(info[1], d, depth + 1):
+                            return False
+                    else:
+                        return False
+                return bool(defs)
             return False
 
         rep.check("C16.R3", covers_all_parts(key, final_store.id), F, st, "escaped dots are unescaped in the LAST key segment too", f"the last key `{ast.unparse(key)}` is used without replacing '\\.' by '.': an escaped dot in the final segment stays escaped and the override lands under the wrong key")
@@ -234,7 +338,19 @@ def run(ctx) -> None:
     from ..facts import Facts
 
     facts = Facts(a, F, rd)
-    env_defs = [n for n in cfg.live_nodes() if n.kind == "stmt" and isinstance(n.ast, ast.Assign) and isinstance(n.ast.targets[0], ast.Name) and n.ast.targets[0].id == service_p]
+    # the effective service name may live in a local of its own (`name = service or getenv(..)`):
+    # from there on that local plays the option's part
+    svc_names = {service_p}
+    eff_defs = [n for n in cfg.live_nodes() if n.kind == "stmt" and isinstance(n.ast, ast.Assign) and len(n.ast.targets) == 1 and isinstance(n.ast.targets[0], ast.Name) and n.ast.targets[0].id != service_p and service_p in names_in(n.ast.value)]
+    for n_ in eff_defs:
+        e_name = n_.ast.targets[0].id
+        if sum(1 for x in walk_own(F.node) if isinstance(x, ast.Name) and x.id == e_name and isinstance(x.ctx, (ast.Store, ast.Del))) != 1:
+            continue
+        svc_names.add(e_name)
+        after_ = cfg.reach([d for d, _l in n_.succ], edge_ok=lambda s_, d_, lab: lab not in ("e", "h"))
+        stale = [cfg.nodes[i] for i in sorted(after_) if cfg.own_ast(cfg.nodes[i]) is not None and ((cfg.nodes[i].kind == "test" and service_p in names_in(cfg.own_ast(cfg.nodes[i]))) or any(isinstance(e, ast.Subscript) and isinstance(e.slice, ast.Name) and e.slice.id == service_p for e in iter_own(cfg.own_ast(cfg.nodes[i]))))]
+        rep.check("C16.R4", not stale, F, stale[0].ast if stale else n_.ast, f"after `{e_name}` is computed the selection uses it, not the raw option", f"the selection tests the raw --service option after `{e_name}` was computed from it and the environment: ASPHALT_SERVICE alone does not select the service")
+    env_defs = [n for n in cfg.live_nodes() if n.kind == "stmt" and isinstance(n.ast, ast.Assign) and isinstance(n.ast.targets[0], ast.Name) and n.ast.targets[0].id in svc_names]
     # a reassignment after the last use of the name in a decision (e.g. remembering which
     # service was picked, for a log message) does not take part in the selection
     def _influences(n_) -> bool:
@@ -244,11 +360,11 @@ def run(ctx) -> None:
             oa = cfg.own_ast(x)
             if oa is None:
                 continue
-            if x.kind == "test" and service_p in names_in(oa):
+            if x.kind == "test" and svc_names & names_in(oa):
                 return True
-            if any(isinstance(e, ast.Subscript) and isinstance(e.slice, ast.Name) and e.slice.id == service_p for e in iter_own(oa)):
+            if any(isinstance(e, ast.Subscript) and isinstance(e.slice, ast.Name) and e.slice.id in svc_names for e in iter_own(oa)):
                 return True
-            if any(isinstance(e, ast.Call) and call_name(e) in ("get", "pop") and any(isinstance(y, ast.Name) and y.id == service_p for y in e.args) for e in iter_own(oa)):
+            if any(isinstance(e, ast.Call) and call_name(e) in ("get", "pop") and any(isinstance(y, ast.Name) and y.id in svc_names for y in e.args) for e in iter_own(oa)):
                 return True
         return False
 
@@ -295,9 +411,9 @@ def run(ctx) -> None:
                 return "single"
         if isinstance(test, ast.UnaryOp) and isinstance(test.op, ast.Not) and isinstance(test.operand, ast.Name) and test.operand.id == services_v:
             return "empty"
-        if isinstance(test, ast.Name) and test.id == service_p:
+        if isinstance(test, ast.Name) and test.id in svc_names:
             return "named"
-        if isinstance(test, ast.Compare) and isinstance(test.left, ast.Name) and test.left.id == service_p and isinstance(test.ops[0], ast.IsNot):
+        if isinstance(test, ast.Compare) and isinstance(test.left, ast.Name) and test.left.id in svc_names and isinstance(test.ops[0], ast.IsNot):
             return "named"
         if isinstance(test, ast.Compare) and is_const(test.left, "default") and isinstance(test.ops[0], ast.In) and services_v in names_in(test.comparators[0]):
             return "default"
@@ -309,7 +425,7 @@ def run(ctx) -> None:
     # a test that merely decides whether the environment variable is consulted is not a ladder row
     from .discharge import controlling_tests as _ct
 
-    env_guards = {t.id for n_ in env_defs for t, _lab in _ct(cfg, n_) if service_p in names_in(t.ast) and services_v not in names_in(t.ast)}
+    env_guards = {t.id for n_ in env_defs for t, _lab in _ct(cfg, n_) if svc_names & names_in(t.ast) and services_v not in names_in(t.ast)}
     ladder_tests = [t for t in ladder_tests if t.id not in env_guards]
     # ... and so is a test that decides nothing about the selection (e.g. one that only logs):
     # a ladder test controls a raise or a definition of the service section that gets merged
@@ -374,7 +490,7 @@ def run(ctx) -> None:
             reaches_merge = svc_merge[1] is not None and svc_merge[1].id in region
             rep.check("C16.R4", raises_click_nodes(acts) and not reaches_merge, F, node, f"row '{kind}' fails with a ClickException and starts nothing", f"row '{kind}' does not fail with an error")
         elif kind == "named":
-            sub = [x for n in acts if cfg.own_ast(n) is not None for x in iter_own(cfg.own_ast(n)) if isinstance(x, ast.Subscript) and isinstance(x.value, ast.Name) and x.value.id == services_v and isinstance(x.slice, ast.Name) and x.slice.id == service_p]
+            sub = [x for n in acts if cfg.own_ast(n) is not None for x in iter_own(cfg.own_ast(n)) if isinstance(x, ast.Subscript) and isinstance(x.value, ast.Name) and x.value.id == services_v and isinstance(x.slice, ast.Name) and x.slice.id in svc_names]
             getc = [x for n in acts if cfg.own_ast(n) is not None for x in iter_own(cfg.own_ast(n)) if isinstance(x, ast.Call) and call_name(x) == "get" and isinstance(x.func.value, ast.Name) and x.func.value.id == services_v]
             handled = raises_click_nodes(acts)
             rep.check("C16.R4", bool(sub or getc) and handled, F, node, "row 'named': that service, or an error if it does not exist", "a named service that does not exist is not reported as an error (or another service is used)")
